@@ -18,7 +18,7 @@ import (
 )
 
 var ufSigs = map[string]string{
-	"sl.arr": "(Int) Int", "sl.off": "(Int) Int", "sl.len": "(Int) Int", "sl.cap": "(Int) Int", "mk.slice": "(Int Int Int) Int",
+	"sl.arr": "(Int) Int", "sl.off": "(Int) Int", "sl.len": "(Int) Int", "sl.cap": "(Int) Int", "str.lastindex": "(Int Int) Int", "str.index": "(Int Int) Int", "mk.slice": "(Int Int Int) Int",
 	"if.tag": "(Int) Int", "if.ref": "(Int) Int", "mk.iface": "(Int Int) Int", "clo.fn": "(Int) Int",
 	"card": "((Array Int Bool)) Int", "card.wit": "((Array Int Bool)) Int", "str.concat": "(Int Int) Int", "str.hasprefix": "(Int Int) Bool",
 	"str.ofbytes": "(Int) Int", "bytes.ofstr": "(Int) Int", "str.len": "(Int) Int",
